@@ -216,13 +216,26 @@ def _enc(hr, res):
     return {'val': hr.enc(res)}
 
 
+_FALSY = {}
+
+
+def falsy_factory(c):
+    """the catalogue's attribute objects, two thirds of the classes FALSY (an empty user collection with __len__ 0, a response-like
+    object whose __bool__ is False): having children does not depend on truthiness"""
+    import pyval
+    if c not in _FALSY:
+        ns = {'__bool__': lambda self: False} if c % 3 == 1 else {'__len__': lambda self: 0} if c % 3 == 2 else {}
+        _FALSY[c] = type('F%d' % c, (pyval.cls_of(c),), ns)
+    return _FALSY[c]
+
+
 def run_impl(case):
     import glom
     if case.get('kind') == 'flaky':
         return run_flaky(case)
     if case.get('kind') == 'broadcast':
         return run_broadcast(case)
-    hr = HeapRealiser(case['cells'])
+    hr = HeapRealiser(case['cells'], falsy_factory)
     target = hr.val(case['target'])
     P = glom.core.Path
     saved = P._MAX_CACHE
@@ -243,7 +256,7 @@ def run_impl(case):
     if case['spelling'] != 'text' and not case.get('full_cache'):
         # the same steps taken from a scope variable holding the target: S.v.<steps> (F34: the steps after a wildcard are
         # applied to each child, whatever the path started from)
-        hr2 = HeapRealiser(case['cells'])
+        hr2 = HeapRealiser(case['cells'], falsy_factory)
         target2 = hr2.val(case['target'])
         try:
             res2 = glom.glom(target2, (glom.S(v=glom.T), glom.Path(glom.S['v'], _spec(case))))
